@@ -39,9 +39,11 @@ EXPLANATION = (
     "panic-capable sites of the four crates are enumerated and classified (contract / guarded / unreviewed) as evidence."
     " (K10 absent=>Err) solve() returns an error when no global `start` exists, which is what keeps the lowering's `.find(..).unwrap()` from meeting None."
     ' (UNSIGNED-SUB) every unsigned subtraction is listed with the invariant that keeps it from underflowing, or saturates; (GUARD guard-key-is-stable / output-size-bounded) a visited-set guard is not defeated by nodes created during the recursion, and unfolding the type graph into a tree is bounded (two known findings).'
+    " (PROGRESS) by abstract interpretation of sylt-parser (cursor position relative to the loop head: same / further / strictly further; what is known about the token under the cursor; summaries per parsing function as a greatest fixed point): every loop driven by a token cursor advances it strictly on every path back to its head - at the latest after two more iterations, which is how the error-recovery loops of module() and block() work - and is left when the cursor is at the end of the input; callbacks handed to the generic list parser never move the cursor backwards."
 )
 UNDECIDED = ("absence of panics at the unreviewed census sites, arithmetic overflow, native stack depth on deeply nested input, "
-             "termination of the parser loops (PROGRESS was not built) and of the type checker in general.")
+             "unbounded recursion of the parser without consuming input, loops of the parser that are not driven by a cursor and "
+             "are not in the reviewed table, termination of the type checker in general.")
 
 MANIFEST = dict(
     text=EXPLANATION + " Not decided: " + UNDECIDED,
@@ -66,6 +68,81 @@ def run(F, rep, tier):
     census(F, rep, contracts)
     unsigned_sub(F, rep)
     index_guard(F, rep)
+    parser_progress(F, rep)
+
+
+# loops of the parser that are not driven by a cursor: what bounds them (reviewed; anything else is reported as a note)
+BOUNDED_LOOPS = {
+    ("Context::skip", 1): "counts up to n: the counter grows whenever the token is not a comment and EOF is not a comment (PROGRESS|Context::skip|advances-n)",
+    ("Context::prev", 1): "walks back over comments until a non-comment token; every caller is strictly behind a root cursor, which rests on a non-comment token (PROGRESS|Context::prev|callers-behind-a-root)",
+    ("expression::function", 2): "pops one trailing empty statement from a finite vector per iteration",
+    ("sylt_parser::tree", 1): "work list of files guarded by a visited set (C12 VISIT-ONCE)",
+}
+
+
+def parser_progress(F, rep):
+    """(PROGRESS) every token-driven loop of sylt-parser moves its cursor strictly forward on every path back to the loop
+    head (within at most three iterations) and leaves when the cursor is at the end of the input"""
+    import progress
+    A = progress.Analysis(F)
+    for pr in sorted(set(A.problems)):
+        rep.ob("PROGRESS", "analysis|" + pr.split(":")[0], False, "the abstract interpretation gave up: %s" % pr, None, sites=0)
+    rep.ob("PROGRESS", "Context::skip|advances-n", A.skip_ok, "skip(n): " + A.skip_text, F.fns.get(progress.CTX_PATH + "skip", {}).get("sp"))
+    rep.ob("PROGRESS", "Context::prev|back-over-comments-only", A.prev_ok, "prev(): " + A.prev_text, F.fns.get(progress.CTX_PATH + "prev", {}).get("sp"))
+    proved = 0
+    by_loop = {}
+    for p, i, ln, res in A.loops():
+        by_loop[(p, i)] = (ln, res)
+    for (p, i), (ln, res) in sorted(by_loop.items()):
+        name = last(p, 2) if not p.startswith(progress.CTX_PATH) else "Context::" + last(p)
+        if p.count("::") == 1:
+            name = p
+        key = "%s|loop#%d" % (name, i)
+        rep.analysed(p)
+        if not res:
+            rep.info("PROGRESS: loop %s at %s is in code the interpretation does not reach (not decided)" % (key, ln.get("sp")))
+            continue
+        driven = any(r["token_driven"] for r in res)
+        fails = [f for r in res for f in r["failures"]]
+        if not driven:
+            why = BOUNDED_LOOPS.get((name, i))
+            if why:
+                rep.ob("PROGRESS", key + "|bounded", True, "not driven by a cursor: %s" % why, ln.get("sp"))
+            else:
+                rep.info("PROGRESS: loop %s at %s is not driven by a token cursor and not in the reviewed table (termination not decided)" % (key, ln.get("sp")))
+            continue
+        if (name, i) in BOUNDED_LOOPS:
+            rep.ob("PROGRESS", key + "|bounded", True, "bounded by a counter: %s" % BOUNDED_LOOPS[(name, i)], ln.get("sp"))
+            continue
+        stuck = [b for k_, b in fails if k_ == "stuck"]
+        eof = [b for k_, b in fails if k_ == "eof"]
+        carried = sorted({c for r in res for c in r["carried"]})
+        if not fails:
+            proved += 1
+            rep.ob("PROGRESS", key, True, "the cursor `%s` is strictly further on every path back to the loop head, and the loop is "
+                   "left at the end of the input (%d abstract entry states)" % (", ".join(carried), len(res)), ln.get("sp"))
+        else:
+            parts = []
+            if stuck:
+                parts.append("a path returns to the loop head without the cursor `%s` having moved (also not after two more iterations): %s"
+                             % (", ".join(carried), " -> ".join(stuck[0].trail[-8:]) or "straight through the body"))
+            if eof:
+                parts.append("with the cursor at the end of the input the loop is not left (Context::token() keeps answering EOF): %s"
+                             % (" -> ".join(eof[0].trail[-8:]) or "straight through the body"))
+            rep.ob("PROGRESS", key, False, "; ".join(parts) + " - the parser does not terminate on some input", ln.get("sp"))
+    rep.ob("PROGRESS", "Context::prev|callers-behind-a-root", not A.prev_unsafe,
+           "prev() is only applied to cursors that are strictly further than the cursor the function started from" if not A.prev_unsafe else
+           "prev() is applied to a cursor that is not known to be strictly behind a root (%s): it may walk back past the start of what "
+           "the caller consumed - or, over leading comments, never stop" % sorted(set(A.prev_unsafe))[:3], None, sites=1)
+    rep.floor("PROGRESS", "token-driven parser loops proved to advance", proved, 24)
+    n = 0
+    for caller, cal, what, ok, detail, where in A.callable_checks():
+        n += 1
+        rep.ob("PROGRESS", "callable|%s->%s|%s" % (last(caller), cal, re.sub(r"[^A-Za-z0-9_:]", "", what)[:30]), ok,
+               "a parser callback handed to %s never moves the cursor backwards (%s): %s" % (cal, what, detail), where)
+    rep.floor("PROGRESS", "parser callbacks checked", n, 6)
+    rep.info("PROGRESS summaries (cursor returned relative to the argument): " + "; ".join(
+        "%s %s%s" % (last(p), progress.show(sm["ret"]), "" if sm["eof_ok"] else " [no Ok at EOF]") for p, sm in sorted(A.summaries.items())))
 
 
 # --------------------------------------------------------------------------- helpers
